@@ -340,7 +340,7 @@ func extractReturns(repo, gen, facts string) {
 	}
 	crud, store, db, txc := parse("store_crud.go"), parse("store.go"), parse("db.go"), parse("tx_context.go")
 	files := []*ast.File{crud, store, db, txc}
-	holderFiles := []*ast.File{crud, parse("base.go"), parse("indexes.go"), parse("typed_bucket.go")}
+	holderFiles := []*ast.File{crud, parse("base.go"), parse("indexes.go"), parse("typed_bucket.go"), parse("link_collection.go")}
 	rf := &retFacts{Sites: map[string]string{}, Flags: map[string]bool{}, Holder: map[string]bool{}, Recognised: true}
 	c := &retCtx{fset: fset, facts: rf}
 	need := func(recv, name string) *ast.FuncDecl {
@@ -477,6 +477,14 @@ func extractReturns(repo, gen, facts string) {
 	}
 	rf.Flags["constraintPostCommitOnlyFromProcessPostCommit"] = pcIn == 0
 
+	// every listener registration gives its adapter a change-type list of its own (first type, then a copy of the
+	// additional ones): the caller's variadic slice is never shared
+	copies := true
+	for _, name := range []string{"AddEntityEventListener", "AddEntityEventListenerF", "AddListener", "AddEntityIdListener"} {
+		fd := need("BaseStore", name)
+		copies = copies && strings.Contains(c.text(fd.Body), "append([]EntityEventType{changeType}, changeTypes...)")
+	}
+	rf.Flags["registrationCopiesChangeTypes"] = copies
 	for _, name := range []string{"entityListenerAdapter", "entityFunctionListenerAdapter", "untypedEventListenerWrapper"} {
 		fd := need(name, "ProcessPostCommit")
 		rf.Adapters = append(rf.Adapters, name+" = "+c.adapterShape(fd))
@@ -549,6 +557,11 @@ func extractReturns(repo, gen, facts string) {
 		strings.Contains(setMText, "case []interface{}: if allowNested { bucket.PutList(name, val, nil) }") &&
 		strings.Contains(setMText, "case map[string]interface{}: if allowNested { bucket.PutMap(name, val, nil, true) }")
 	h["persistContextSetMapAllowsNesting"] = c.text(needH("PersistContext", "SetMap").Body) == "{ ctx.Bucket.PutMap(field, value, ctx.FieldChecker, true) }"
+	// link operations hand the error of the reverse side on; SetLinkedIds records what SetLinks returns
+	h["linkReturnsErrorOfReverseSide"] = strings.HasSuffix(c.text(needH("linkCollectionImpl", "link").Body),
+		"return collection.otherField.AddLink(tx, associatedId, id) }")
+	h["setLinkedIdsRecordsSetLinksError"] = strings.Contains(c.text(needH("PersistContext", "SetLinkedIds").Body),
+		"ctx.Bucket.SetError(collection.SetLinks(ctx.Bucket.Tx(), ctx.Id, value))")
 	h["updateBeforeUpdateThenPersistThenAfterUpdate"] = ordered(update,
 		"indexingContext := store.newIndexingContext(false, ctx, entity.GetId(), bucket)",
 		"indexingContext.ProcessBeforeUpdate()",
